@@ -299,7 +299,7 @@ Definition cc (ez : bool) (cf c : nat) : list nat :=
 Definition cr (ez : bool) (cf : nat) (k : nat * nat) (cont : list nat) : list nat :=
   let okg := Nat.eqb (nth 0 cont 0) (nth 0 (cc ez cf (fst k)) 0) in
   let oke := Nat.eqb (nth 2 cont 0) (nth 2 (cc ez cf (fst k)) 0) in
-  let code (ok : bool) j := if ok then 100000 + j + 10 * snd k + 1000 * fst k + 50000 * cf else 900000 + j in
+  let code (ok : bool) j := if ok then 3000 + j + 4 * snd k + 8 * fst k + 64 * cf else 4000 + j in
   (* Lss, Lsv use the cached GF; L1vv uses GF and etav; L0vv is the cached array handed through *)
   [nth 1 cont 0; code okg 1; code okg 2; code (okg && oke) 3].
 Definition OP := op nat (nat * nat) nat.
@@ -355,9 +355,15 @@ class Pool:
         self.protos = {}
 
     def fresh(self, cfg):
+        """a calculator that has never been used: a deep copy of one constructed once per configuration and never called
+        (construction is deterministic; this only saves rebuilding the star sets)"""
         from onsager import OnsagerCalc
+        import copy
         N, ngf = cfg
-        return OnsagerCalc.VacancyMediated(self.crys, self.chem, self.sl, self.jn, N, ngf)
+        if not hasattr(self, "_pristine"): self._pristine = {}
+        if cfg not in self._pristine:
+            self._pristine[cfg] = OnsagerCalc.VacancyMediated(self.crys, self.chem, self.sl, self.jn, N, ngf)
+        return copy.deepcopy(self._pristine[cfg])
 
     # vacancy data sets 3.. are near-equal but distinct copies of data set 0: (bFV, bFT0) * (1 + delta); numpy.allclose
     # (rtol 1e-5, atol 1e-8) calls the first three equal to data set 0, the last two not
@@ -470,11 +476,32 @@ def state_snapshot(d):
     return snap
 
 
+_GF_WORKING = None
+
+
+def gf_working_attrs():
+    """attributes that GFCrystalcalc.SetRates (re)binds: the GF calculator's documented per-rate working state (from the source)"""
+    global _GF_WORKING
+    if _GF_WORKING is None:
+        import onsager
+        tree = ast.parse(open(os.path.join(os.path.dirname(onsager.__file__), "GFcalc.py")).read())
+        names = set()
+        for cls in [n for n in tree.body if isinstance(n, ast.ClassDef) and n.name == "GFCrystalcalc"]:
+            for fn in [n for n in cls.body if isinstance(n, ast.FunctionDef) and n.name == "SetRates"]:
+                for st in ast.walk(fn):
+                    if isinstance(st, (ast.Assign, ast.AugAssign)):
+                        for t in (st.targets if isinstance(st, ast.Assign) else [st.target]):
+                            for n in ast.walk(t):
+                                if isinstance(n, ast.Attribute) and isinstance(n.value, ast.Name) and n.value.id == "self": names.add(n.attr)
+        _GF_WORKING = tuple(sorted("GFcalc." + n for n in names))
+    return _GF_WORKING
+
+
 def state_changes(d, snap):
     """attributes present in the snapshot whose data differ now (attributes created later, e.g. by SetRates, are allowed;
     the GF calculator's per-SetRates results are listed as its documented working state)"""
     now = state_snapshot(d)
-    GF_WORKING = ("GFcalc.D", "GFcalc.eta")     # None / 0 before the first SetRates
+    GF_WORKING = gf_working_attrs()
     return sorted(k for k, v in snap.items() if k not in GF_WORKING and now.get(k) != v)
 
 
@@ -687,7 +714,7 @@ def run(ck):
     # ---- 4b. witness replay  [Lij a; Lij b; Lij a]  (different vacancy data; the third call is a cache hit)
     for nm, pool in pools.items():
         for N in (1, 2):
-            if ck.quick and N == 2 and len(pool.jn) < 2: continue
+            if ck.quick and N == 2 and nm not in ("rect-polar2d", "polar3w2d", "pg4"): continue
             d = pool.fresh((N, 4))
             alog = []
             seq = [(0, 0), (1, 0), (0, 0), (2, 1), (1, 1), (0, 1), (2, 0)]
@@ -721,7 +748,7 @@ def run(ck):
     # ---- 4d. near-equal but distinct vacancy data (a fine temperature scan, a finite-difference step) in both orders
     blind = 0
     for nm, pool in pools.items():
-        if ck.quick and nm in ("honeycomb", "sq2w"): continue
+        if ck.quick and nm not in ("square", "rect-polar2d", "rect", "pg4"): continue
         for v in sorted(Pool.NEAR):
             if ck.quick and v == 7: continue
             A, Ap = (0, 0), (v, 0)
